@@ -138,18 +138,26 @@ func runAlph(c aCase, o aOracles) (*vh.Violation, vh.Outcome) {
 	if !waitFor(5*time.Second, func() bool { return nKind("count") >= 2 }) {
 		return inconclusive("watcher-did-not-start")
 	}
+	// messages are stamped the moment they arrive (position in the request log, operation in progress)
+	var arrMu sync.Mutex
 	var arrivals []aArrival
 	curOp := -1
-	collect := func() {
+	go func() {
 		for {
 			select {
-			case m := <-msgC:
-				arrivals = append(arrivals, aArrival{m, nReqs(), curOp})
-			default:
+			case <-ctx.Done():
 				return
+			case m := <-msgC:
+				n := nReqs()
+				arrMu.Lock()
+				arrivals = append(arrivals, aArrival{m, n, curOp})
+				arrMu.Unlock()
 			}
 		}
-	}
+	}()
+	nArrivals := func() int { arrMu.Lock(); defer arrMu.Unlock(); return len(arrivals) }
+	setOp := func(i int) { arrMu.Lock(); curOp = i; arrMu.Unlock() }
+	collect := func() {}
 	exited := ""
 	checkExit := func() bool {
 		select {
@@ -179,24 +187,49 @@ func runAlph(c aCase, o aOracles) (*vh.Violation, vh.Outcome) {
 		}
 		return false, ""
 	}
-	// settle: three more count polls and (if heights are being polled) three more height polls have been answered
+	nonPoll := func() int {
+		sim.mu.Lock()
+		defer sim.mu.Unlock()
+		n := 0
+		for _, r := range sim.reqs {
+			if r.kind != "count" && r.kind != "chaininfo" && r.kind != "mainchain" { // main-chain checks repeat every round while something is pending
+				n++
+			}
+		}
+		return n
+	}
+	// settle: the watcher has gone through two full poll rounds (count, and height if heights are being polled)
+	// during which it sent no other request and forwarded nothing. Heights are handed over synchronously, so a
+	// further height answer means the previous one has been processed completely.
 	settle := func() bool {
-		c0, h0 := nKind("count"), nKind("chaininfo")
-		return waitFor(3*time.Second, func() bool {
-			if sp, _ := spinning(); sp {
+		for attempt := 0; attempt < 200; attempt++ {
+			c0, h0, n0, a0 := nKind("count"), nKind("chaininfo"), nonPoll(), nArrivals()
+			ok := waitFor(3*time.Second, func() bool {
+				if sp, _ := spinning(); sp {
+					return true
+				}
+				if checkExit() {
+					return true
+				}
+				if nKind("count") < c0+2 {
+					return false
+				}
+				if w.blockPollerEnabled.Load() && nKind("chaininfo") < h0+2 {
+					return false
+				}
 				return true
-			}
-			if checkExit() {
-				return true
-			}
-			if nKind("count") < c0+3 {
+			})
+			if !ok {
 				return false
 			}
-			if w.blockPollerEnabled.Load() && nKind("chaininfo") < h0+3 {
-				return false
+			if sp, _ := spinning(); sp || checkExit() {
+				return true
 			}
-			return true
-		})
+			if nonPoll() == n0 && nArrivals() == a0 {
+				return true
+			}
+		}
+		return false
 	}
 
 	nowMs := time.Now().UnixMilli()
@@ -324,7 +357,7 @@ func runAlph(c aCase, o aOracles) (*vh.Violation, vh.Outcome) {
 	}
 
 	for i, x := range c.Ops {
-		curOp = i
+		setOp(i)
 		sim.mu.Lock()
 		switch x.K {
 		case "emit":
@@ -398,29 +431,28 @@ func runAlph(c aCase, o aOracles) (*vh.Violation, vh.Outcome) {
 			reobs = true
 			t := txs[x.A%len(txs)]
 			raw, _ := hex.DecodeString(t.id)
-			n0 := nKind("txstatus")
 			reqC <- &gossipv1.ObservationRequest{ChainId: uint32(vaa.ChainIDAlephium), TxHash: raw}
-			if !waitFor(3*time.Second, func() bool { return nKind("txstatus") > n0 || checkExit() }) {
+			// requests are handled one after the other: once a later request for an unknown transaction has reached its
+			// status lookup, the request above has been handled completely
+			bar := vh.Expand(uint64(900000+i), 32)
+			barHex := hex.EncodeToString(bar)
+			done := false
+			for b := 0; b < 4 && !done; b++ {
+				reqC <- &gossipv1.ObservationRequest{ChainId: uint32(vaa.ChainIDAlephium), TxHash: bar}
+				done = waitFor(3*time.Second, func() bool {
+					sim.mu.Lock()
+					defer sim.mu.Unlock()
+					for k := len(sim.reqs) - 1; k >= 0 && k > len(sim.reqs)-600; k-- {
+						if sim.reqs[k].kind == "txstatus" && sim.reqs[k].arg == barHex && sim.reqs[k].status == 200 {
+							return true
+						}
+					}
+					return false
+				}) || checkExit()
+			}
+			if !done {
 				return inconclusive("reobserve-not-handled")
 			}
-			// the handler is sequential: let its follow-up requests drain
-			stable := nReqs()
-			waitFor(50*time.Millisecond, func() bool {
-				time.Sleep(3 * time.Millisecond)
-				n := 0
-				sim.mu.Lock()
-				for _, r := range sim.reqs[stable:] {
-					if r.kind != "count" && r.kind != "chaininfo" && r.kind != "page" {
-						n++
-					}
-				}
-				sim.mu.Unlock()
-				if n == 0 {
-					return true
-				}
-				stable = nReqs()
-				return false
-			})
 		}
 		if !settle() {
 			return inconclusive("step-did-not-settle")
@@ -435,7 +467,7 @@ func runAlph(c aCase, o aOracles) (*vh.Violation, vh.Outcome) {
 	}
 	// closing stretch: enough height for every consistency level, then a few more polls
 	if exited == "" {
-		curOp = len(c.Ops)
+		setOp(len(c.Ops))
 		sim.mu.Lock()
 		sim.height += 260
 		sim.mu.Unlock()
@@ -455,6 +487,10 @@ func runAlph(c aCase, o aOracles) (*vh.Violation, vh.Outcome) {
 	}
 
 	// ---------------------------------------------------------------- safety
+	cancel()
+	time.Sleep(time.Millisecond)
+	arrMu.Lock()
+	defer arrMu.Unlock()
 	sim.mu.Lock()
 	reqs := append([]simReq{}, sim.reqs...)
 	sim.mu.Unlock()
